@@ -34,6 +34,10 @@ PROFILE = {
 
 
 def generate(rng, i):
+    if i % 12 == 11:
+        # the tabular environment configured with delays 0..3 (its constructor forwards the delay): the same FIFO rule
+        from tesim.props import c17
+        return c17.generate_xy(rng, i)
     pf = PROFILE
     if rng.random() < 0.2:
         # thinly quoted contracts: every contract has a bar at the first timestep and the first contract at all of
@@ -82,6 +86,14 @@ def generate(rng, i):
 
 
 def execute(scenario):
+    if scenario.get("kind") == "xy":
+        from tesim.props import c17
+        out = c17.execute_xy(scenario)
+        for v in out["violations"]:
+            if v["clause"] == "allocation_not_action":
+                v["clause"] = "fifo_delay"
+                v["sig"] = {"kind": "xy"}
+        return out
     sim = epi.run_scenario(scenario)
     env_spec = scenario["envs"][0]
     d = Delivery(env_spec, gen_epi.auto_disc(env_spec))
@@ -209,14 +221,30 @@ def uncanon(a):
 
 
 def describe(scenario):
+    if scenario.get("kind") == "xy":
+        from tesim.props import c17
+        return c17.describe(scenario)
     return gen_epi.describe(scenario)
 
 
 def shrink_paths(scenario):
+    if scenario.get("kind") == "xy":
+        return [("actions",)]
     return [("script",), ("envs", 0, "events")]
 
 
-from tesim.props.c04 import simplify, in_domain  # noqa: E402,F401
+from tesim.props.c04 import simplify as _simplify_epi, in_domain as _in_domain_epi  # noqa: E402
+
+
+def simplify(scenario):
+    if scenario.get("kind") == "xy":
+        return
+    for c in _simplify_epi(scenario):
+        yield c
+
+
+def in_domain(scenario):
+    return True if scenario.get("kind") == "xy" else _in_domain_epi(scenario)
 
 
 generate = gen_epi.with_backtest_driver(generate, 0.2)
